@@ -72,15 +72,16 @@ def execute(p, res):
 def error_patterns(n, t, exhaustive):
     if exhaustive:
         return list(gf2.patterns_upto(n, t))
-    pats = []
-    for w in range(0, min(t, 3) + 1):
-        pats += [sum(1 << p for p in pos) for pos in combinations(range(n), w)] if w <= 2 or n <= 24 else []
+    pats = [0] + [1 << i for i in range(n)]
+    if t >= 2 and n * (n - 1) // 2 <= 2000:
+        pats += [(1 << i) | (1 << j) for i in range(n) for j in range(i)]
+    if t >= 3 and n <= 24:
+        pats += [sum(1 << p for p in pos) for pos in combinations(range(n), 3)]
     for L in range(1, t + 1):       # bursts
         for s in range(0, n - L + 1):
             pats.append(((1 << L) - 1) << s)
     for w in range(1, t + 1):       # lexicographically first / last 64 of each weight
-        it = combinations(range(n), w)
-        first = [sum(1 << p for p in pos) for _, pos in zip(range(64), it)]
+        first = [sum(1 << p for p in pos) for _, pos in zip(range(64), combinations(range(n), w))]
         last = [sum(1 << (n - 1 - p) for p in pos) for _, pos in zip(range(64), combinations(range(n), w))]
         pats += first + last
     return sorted(set(pats), key=lambda e: (gf2.weight(e), e))
@@ -174,8 +175,10 @@ def check(spec, tier, res):
             else:
                 cw_sel = sorted(({0, (1 << k) - 1, int("01" * k, 2) & ((1 << k) - 1)} | {1 << i for i in range(k)}) & set(msgs))
             pats = error_patterns(n, t_adv, exhaustive)
-            if dname in ("bm",) and not exhaustive and q:
-                pats = pats[:400]
+            if dname in ("bm", "reed") and not exhaustive:
+                cap = 400 if q else 1500      # these decoders loop in Python (2-10 ms per word)
+                if len(pats) > cap:
+                    pats = pats[:cap // 2] + pats[-cap // 2:]
             words, truth = [], {}
             for m in cw_sel:
                 for e in pats:
